@@ -37,8 +37,8 @@ func init() {
 					cs = append(cs, mkCase("", "c08", "HIdmPair", cfg, a, b))
 				}
 			}
-			for a := int64(0); a < 6; a++ {
-				for b := a; b < 6; b++ {
+			for a := int64(0); a < 7; a++ {
+				for b := a; b < 7; b++ {
 					cs = append(cs, mkCase("", "c08", "HViews", cfg, a, b))
 				}
 			}
